@@ -773,6 +773,11 @@ impl<'de> Events<'de> for LiveEvents<'de> {
             .unwrap_or(self.last_location)
     }
 
+    fn at_alias(&self) -> bool {
+        // The frame of an alias is pushed by the pump that serves its first event.
+        self.inject.last().is_some_and(|frame| frame.idx == 1)
+    }
+
     fn input_for_borrowing(&self) -> Option<&'de str> {
         self.input
     }
